@@ -43,7 +43,8 @@ def _work(args):
     return dict(qual=res.qual, status=res.status, reason=res.reason, obligations=out, paths=res.paths,
                 returns=res.returns, raises=res.raises, dropped=sorted(res.dropped),
                 assumptions=sorted(res.assumptions), inlined=sorted(res.inlined), file=res.file, line=res.line,
-                digest=res.digest, seconds=round(res.seconds, 3), notes=sorted(res.notes))
+                digest=res.digest, seconds=round(res.seconds, 3), notes=sorted(res.notes),
+                unreached=list(res.unreached))
 
 
 def run_property(pid, jobs=None, only=None):
